@@ -29,7 +29,8 @@ class CoordError(Exception):
 
 KIND = {201: "lockreq", 202: "locked", 203: "loaded", 204: "bwritten", 205: "assigned", 206: "fwritten",
         207: "released", 219: "start", 220: "req", 221: "took", 222: "evaled", 223: "join"}
-K_WOPEN, K_WREC, K_ENDED, K_DONE, K_ABORT = 210, 211, 224, 225, 226
+K_WOPEN, K_WREC, K_ENDED, K_DONE, K_ABORT, K_SPAWN = 210, 211, 224, 225, 226, 227
+K_MLOCK, K_MUNLOCK = 1, 2        # tools::Mutex lock request / unlock (verif_hook.h)
 SECTION = {"lockreq", "locked", "loaded", "bopen", "bwritten", "assigned", "fopen", "fwritten", "released"}
 STOPPED = {"done", "crashed", "aborted"}
 OLDHOST = "old"
@@ -89,6 +90,8 @@ class Actor:
         self.tid = None
         self.crash_rec = None   # crash at this record index of the file being written
         self.deferred = None    # event received while the thread counts as blocked
+        self.running = False    # told to go (or announced by its parent) and not yet heard of again
+        self.mwait = None       # waits for this thread mutex (its lock request has not been answered yet)
 
 
 class Coordinator:
@@ -115,7 +118,9 @@ class Coordinator:
         self.pid2alias = {}
         self.exited = {}          # p -> return code
         self.phase = {p: "init" for p in range(1, np_ + 1)}
-        self.lock = set()
+        self.lock = set()         # processes between their 'locked' and 'released' events (nothing else moves it)
+        self.mutex = {}           # (p, mutex address) -> holder thread, from the real lock-request/unlock events
+        self.mqueue = {}          # (p, mutex address) -> threads whose lock request waits for the holder's unlock
         self.max_lock = 0         # most processes ever inside the lock section at once
         self.obs = {p: None for p in range(1, np_ + 1)}   # last observer digest of p
         self.cur = {(p, t): 0 for p in range(1, np_ + 1) for t in range(0, nt + 1)}
@@ -172,7 +177,40 @@ class Coordinator:
         k = m["k"]
         if "s" in m and m["s"] is not None:
             self.obs[m["p"]] = m["s"]
+        a.running = False
+        if k == K_MLOCK:
+            mk = (m["p"], m["m"])
+            if self.mutex.get(mk) is None:
+                self.mutex[mk] = m["t"]
+                a.running = True
+                self._reply(a, "go")
+            else:                       # answered when the holder unlocks
+                a.mwait = mk
+                self.mqueue.setdefault(mk, []).append(a)
+            return
+        if k == K_MUNLOCK:
+            mk = (m["p"], m["m"])
+            self.mutex[mk] = None
+            a.running = True
+            self._reply(a, "go")
+            q = self.mqueue.get(mk)
+            if q:
+                nxt = q.pop(0)
+                self.mutex[mk] = nxt.t
+                nxt.mwait = None
+                nxt.running = True
+                self._reply(nxt, "go")
+            return
+        if k == K_SPAWN:
+            child = self.actors.get((m["p"], m["a"]))
+            if child is None:
+                raise CoordError("spawn of unknown thread %s" % m["a"])
+            child.running = True        # will report by itself
+            a.running = True
+            self._reply(a, "go")
+            return
         if k == K_WREC:
+            a.running = True
             if a.crash_rec is not None and m["a"] >= a.crash_rec:
                 a.crash_rec = None
                 self._reply(a, "crash")
@@ -186,10 +224,12 @@ class Coordinator:
             return
         if k == K_DONE:
             a.pc, a.pending = "done", None
+            a.running = True            # until the process has exited
             self._reply(a, "go")
             return
         if k == K_ABORT:
             a.pending = None
+            a.running = True
             self.aborting = m["p"]
             self._reply(a, "go")
             return
@@ -212,6 +252,8 @@ class Coordinator:
             self.cur[key] = m["a"]
         if k == 220:
             self.cur[key] = 0
+        if k == 223 and self.phase[m["p"]] == "init":
+            self.phase[m["p"]] = "run"      # the workers have been started
         a.pending = m
 
     def _io(self, timeout):
@@ -345,7 +387,15 @@ class Coordinator:
 
     # ------------------------------------------------------------------ what may be scheduled
     def mutex_free(self, p):
-        return all(self.actors[(p, t)].pc not in SECTION for t in range(1, self.nt + 1))
+        """no thread of p is between a lock request and the unlock of a tools::Mutex (real events, not positions)"""
+        return all(h is None for (q, _), h in self.mutex.items() if q == p)
+
+    def quiet(self):
+        """every live thread is parked at a hook, asleep in fcntl (counted as blocked), queued for a thread mutex, or gone"""
+        for a in self.actors.values():
+            if a.running and a.p not in self.exited:
+                return False
+        return True
 
     def enabled(self, p, t):
         a = self.actors[(p, t)]
@@ -355,8 +405,8 @@ class Coordinator:
             return self.lockmode == "sharable" or not self.lock
         if a.pc in ("req", "evaled"):
             return self.mutex_free(p)
-        if a.pc == "join":
-            return all(self.actors[(p, u)].pc == "ended" for u in range(1, self.nt + 1))
+        if a.pc == "join":     # pthread_join would block: every worker that was started must have ended
+            return all(self.actors[(p, u)].pc in ("ended", "unborn") and not self.actors[(p, u)].running for u in range(1, self.nt + 1))
         return True
 
     def step_options(self):
@@ -377,6 +427,12 @@ class Coordinator:
             a.pc, a.pending, a.blocked, a.deferred = what, None, False, None
             self.cur[(p, t)] = 0
         self.lock.discard(p)
+        for mk in list(self.mutex):
+            if mk[0] == p:
+                del self.mutex[mk]
+                self.mqueue.pop(mk, None)
+        for t in range(0, self.nt + 1):
+            self.actors[(p, t)].running, self.actors[(p, t)].mwait = False, None
         self.phase[p] = "init"
         self.obs[p] = None
 
@@ -402,38 +458,61 @@ class Coordinator:
         self.trace.append({"e": "step", "p": p, "t": t, "k": k, "s": s, "h": self._observe(s)})
 
     def _settle_waiters(self):
-        """a lock holder let go: one of the processes sleeping in fcntl (if any) now owns the lock;
-        that is its lockreq step, recorded right here"""
+        """processes sleeping in fcntl(F_SETLKW) that have woken up (whatever the lock model says): the wake-up is their
+        lockreq step, recorded right here.  Purely observational: a waiter that is still asleep is left alone."""
         while True:
-            waiters = [a for a in self.actors.values() if a.blocked and self.alive(a.p)]
-            if not waiters or self.lock:
+            waiters = [a for a in self.actors.values() if a.blocked and self.alive(a.p) and a.p not in self.exited]
+            woke = None
+            for a in waiters:
+                if a.deferred is None and not self._in_fcntl_wait(a):
+                    # left the fcntl sleep: its next event is on the way
+                    self._pump(lambda: a.deferred is not None or a.p in self.exited, "the event of a woken lock waiter")
+                if a.deferred is not None:
+                    woke = a
+                    break
+            if woke is None:
                 return
             self.settling = True
             try:
-                for a in waiters:
-                    if a.deferred is not None:
-                        m, a.deferred = a.deferred, None
-                        self._handle(a.conn, m)
-                        break
-                else:
-                    self._pump(lambda: any(not a.blocked for a in waiters) or any(a.p in self.exited for a in waiters),
-                               "a lock waiter to wake up")
+                m, woke.deferred = woke.deferred, None
+                self._handle(woke.conn, m)
             finally:
                 self.settling = False
-            woke = [a for a in waiters if not a.blocked]
-            if not woke:
-                raise CoordError("a lock waiter died")
-            for a in woke:
-                self._record(a.p, a.t, 0)
+            woke.blocked = False
+            self._pump(self.quiet, "quiescence after a lock waiter woke up")
+            self._reap()
+            self._record(woke.p, woke.t, 0)
+
+    def _reap(self):
+        """book-keeping for processes that have exited since the last look"""
+        res = {}
+        for p in list(self.exited):
+            a = self.actors[(p, 0)]
+            if a.pc in ("crashed", "aborted") or (a.pc == "done" and not a.running):
+                continue
+            rc = self.exited[p]
+            if a.pc == "done" and rc == 0:
+                for t in range(0, self.nt + 1):
+                    self.actors[(p, t)].running = False
+                self.lock.discard(p)
+                res[p] = "done"
+            elif rc == 3 and self.aborting == p:
+                self._proc_dead(p, "aborted")
+                res[p] = "aborted"
+            else:
+                self.issues.append(("process:died", "process %d died with rc=%s: %s" % (p, rc, self._stderr(p))))
+                self._proc_dead(p, "aborted")
+                res[p] = "aborted"
+        return res
 
     def step(self, p, t, probe=False):
-        """let thread t of process p run to its next hook.  Returns "ok" | "blocked" (probe or
-        real lock contention) | "aborted" | "done"."""
+        """let thread t of process p run until every thread is parked again (normally: t at its next hook).  Purely
+        event driven: nothing is assumed about which hook comes next.  Returns "ok" | "blocked" (asleep in
+        fcntl(F_SETLKW)) | "aborted" | "done"."""
         a = self.actors[(p, t)]
         if a.pending is None or a.blocked:
             raise CoordError("step(%d,%d): thread is not parked (pc=%s)" % (p, t, a.pc))
         at = a.pc
-        ev = a.pending
         a.pending = None
         self.aborting = None
         if at == "took":
@@ -442,40 +521,21 @@ class Coordinator:
             self.cur[(p, t)] = 0
         if at == "join":
             self.phase[p] = "final"
+        a.running = True
         self._reply(a, "go")
-        result = "ok"
-        if at == "lockreq":
-            def arrived():
-                return a.pending is not None or p in self.exited
-            got = self._pump(arrived, "lock of process %d" % p, extra_poll=lambda: self._in_fcntl_wait(a))
-            if not got:
-                self._io(0.002)      # the 'locked' event may have crossed the /proc reading
-                if a.pending is None and p not in self.exited and self._in_fcntl_wait(a):
-                    a.blocked = True
-                    self.nblocked += 1
-                    return "blocked"
-                self._pump(arrived, "lock of process %d" % p)
-        elif at == "released" and t == 0 and self.phase[p] == "init":
-            self.phase[p] = "run"
-            need = [self.actors[(p, u)] for u in range(0, self.nt + 1)]
-            self._pump(lambda: all(x.pending is not None for x in need) or p in self.exited, "thread start of process %d" % p)
-        elif at == "released" and t == 0 and self.phase[p] == "final":
-            rc = self._wait_exit(p, "clean end")
-            if rc != 0 or a.pc != "done":
-                raise CoordError("process %d ended with rc=%s pc=%s %s" % (p, rc, a.pc, self._stderr(p)))
-            self.lock.discard(p)
-            result = "done"
-        else:
-            self._pump(lambda: a.pending is not None or a.pc == "ended" or p in self.exited, "next hook of thread (%d,%d) after %s" % (p, t, at))
-        if p in self.exited and result != "done":
-            rc = self.exited[p]
-            if rc == 3 and self.aborting == p:
-                self._proc_dead(p, "aborted")
-                result = "aborted"
-            else:
-                self.issues.append(("process:died", "process %d died with rc=%s after hook %s: %s" % (p, rc, at, self._stderr(p))))
-                self._proc_dead(p, "aborted")
-                result = "aborted"
+        got = self._pump(self.quiet, "quiescence after the step of thread (%d,%d) parked at %s" % (p, t, at),
+                         extra_poll=lambda: a.running and a.pending is None and self._in_fcntl_wait(a))
+        if not got:
+            self._io(0.002)      # an event may have crossed the /proc reading
+            if a.running and a.pending is None and p not in self.exited and self._in_fcntl_wait(a):
+                a.blocked = True
+                a.running = False
+                a.pc = at
+                self.nblocked += 1
+                self._pump(self.quiet, "quiescence of the other threads")
+                return "blocked"
+            self._pump(self.quiet, "quiescence after the step of thread (%d,%d) parked at %s" % (p, t, at))
+        result = self._reap().get(p, "ok")
         self._record(p, t, 0)
         self._settle_waiters()
         return result
@@ -502,6 +562,7 @@ class Coordinator:
             a.pending = None
             self._reply(a, "crash")
         rc = self._wait_exit(p, "crash")
+        self._pump(self.quiet, "quiescence after a crash")
         if rc not in (137, -9):
             raise CoordError("crash(%d): rc=%s %s" % (p, rc, self._stderr(p)))
         self._proc_dead(p, "crashed")
@@ -592,6 +653,10 @@ def run_random(exe, loader, cfg, np_, nt, rnd, maxcrashes=0, pcrash=0.0, pprobe=
                     pass   # recorded as issue lock:not-exclusive by the event handler
                 continue
             opts = co.step_options()
+            if not opts and probes:
+                p, t = rnd.choice(probes)    # nothing else can move: see whether these really block
+                co.step(p, t, probe=True)
+                continue
             if not opts:
                 outcome = "deadlock"
                 co.issues.append(("protocol:deadlock", "no thread can be scheduled: pcs=%s lock=%s" % (co.pcs(), sorted(co.lock))))
